@@ -61,14 +61,14 @@ def witness_crate(d: Decl, extra_inputs=()):
            aux.render(names, 'kani'), '\n',
            'pub mod d_%s {\n    use super::*;\n%s}\n' % (d.id, ''.join('    ' + l + '\n' for l in d.source().splitlines())),
            'use d_%s::*;\n' % d.id,
-           ref_module(d)]
+           ref_module(d, string_errors=True)]
     R = 'ref_%s' % d.id
     out.append('fn esc(s: &str) -> String { let mut o = String::new(); for c in s.chars() { match c { \'"\' => o.push_str("\\\\\\""), \'\\\\\' => o.push_str("\\\\\\\\"), c if (c as u32) < 0x20 => o.push_str(&format!("\\\\u{:04x}", c as u32)), c => o.push(c) } } o }\n')
     out.append('fn report(entry: &str, input: &str, setting: &str, real: String, expected: String, n: &mut usize) {\n'
                '    if real != expected { *n += 1; if *n <= 5 { println!("{{\\"entry\\":\\"{}\\",\\"input\\":\\"{}\\",\\"bounds\\":\\"{}\\",\\"real\\":\\"{}\\",\\"expected\\":\\"{}\\"}}", esc(entry), esc(input), esc(setting), esc(&real), esc(&expected)); } }\n}\n')
     # expected result as debug string
     if has_v:
-        exp = 'format!("{:?}", %s::try_new(x.clone()))' % R
+        exp = '%s::show(&%s::try_new(x.clone()))' % (R, R)
         real_ctor = 'format!("{:?}", %s::try_new(x.clone()).map(|v| v.into_inner()))' % S
     else:
         exp = 'format!("{:?}", %s::sanitize(x.clone()))' % R
